@@ -67,10 +67,15 @@ func (s SCTP) SerializeTo(b gopacket.SerializeBuffer, opts gopacket.SerializeOpt
 	binary.BigEndian.PutUint16(bytes[2:4], uint16(s.DstPort))
 	binary.BigEndian.PutUint32(bytes[4:8], s.VerificationTag)
 	if opts.ComputeChecksums {
+		// The checksum is computed with the checksum field set to zero; the bytes
+		// returned by PrependBytes are not zeroed.
+		binary.BigEndian.PutUint32(bytes[8:12], 0)
 		// Note:  MakeTable(Castagnoli) actually only creates the table once, then
 		// passes back a singleton on every other call, so this shouldn't cause
 		// excessive memory allocation.
 		binary.LittleEndian.PutUint32(bytes[8:12], crc32.Checksum(b.Bytes(), crc32.MakeTable(crc32.Castagnoli)))
+	} else {
+		binary.BigEndian.PutUint32(bytes[8:12], s.Checksum)
 	}
 	return nil
 }
